@@ -1,2 +1,32 @@
-(* C08.  Theorems are added here as they are proved. *)
-From PJ.Model Require Import Base.
+(* C08 -- delimited vs non-delimited framing is always detected correctly. *)
+From PJ.Model Require Import Base Terms Wire Decoder.
+From PJ.Proofs Require Import HintProofs.
+
+(* Anything written delimited whose first frame is empty or starts with a row -- every frame
+   length, every first-row length, incl. the 0x0A = 10 coincidences -- is detected as delimited. *)
+Theorem C08_delimited :
+  forall (f : frame) (fs : list frame),
+    (f_rows f = [] /\ f_meta f = []) \/ f_rows f <> [] ->
+    (3 <= length (write_delimited (f :: fs)))%nat ->
+    hint (firstn 3 (write_delimited (f :: fs))) = true.
+Proof. exact write_delimited_detected. Qed.
+Print Assumptions C08_delimited.
+
+(* Anything written as a single frame whose first row is the options row is detected as
+   non-delimited, whatever the length of the options row and of the frame. *)
+Theorem C08_single :
+  forall (o : woptions) (rows : list row) (md : list (str * str)),
+    hint (firstn 3 (write_single {| f_rows := ROptions o :: rows; f_meta := md |})) = false.
+Proof. exact write_single_detected. Qed.
+Print Assumptions C08_single.
+
+(* The decision is the documented truth table on all three-byte headers and "non-delimited" on
+   shorter ones. *)
+Theorem C08_truth_table :
+  forall b0 b1 b2 : N, hint [b0; b1; b2] = negb (b0 =? 10) || ((b1 =? 10) && negb (b2 =? 10)).
+Proof. exact hint_truth_table. Qed.
+Print Assumptions C08_truth_table.
+
+Theorem C08_short_headers : forall h : list N, (length h < 3)%nat -> hint h = false.
+Proof. exact hint_short. Qed.
+Print Assumptions C08_short_headers.
